@@ -84,7 +84,14 @@ extern long fiber_verif_runqueue_total(void);
 #define FV_SCHED_SWAP 35          // scheduler, - (run queues swapped)
 #define FV_HP_PUBLISH_PRE 36       // record, node (pointer read, not yet published)
 #define FV_HP_RELEASED 37          // record, (intptr_t) slot (protection just dropped)
-#define FV_POINT_MAX 38
+#define FV_COND_SIGNAL_MID 38      // cond, - (waiter count taken, waiter not yet woken)
+#define FV_SEM_POST_MID 39         // semaphore, - (post saw a negative counter, before waking)
+#define FV_RW_HANDOFF 40           // rwlock, - (state handed over by CAS, waiters not yet woken)
+#define FV_BARRIER_LAST 41         // barrier, - (last arriver, before releasing the others)
+#define FV_JOIN_CLAIMED 42         // fiber, (intptr_t) previous detach state (join/tryjoin/detach made its claim)
+#define FV_COMPLETION_CLAIMED 43   // fiber, (intptr_t) previous detach state (finishing fiber made its claim)
+#define FV_MUTEX_UNLOCK_MID 44     // mutex, - (counter released, waiter not yet woken)
+#define FV_POINT_MAX 45
 
 #define FV_MAINT_DONE_FIBER 1
 #define FV_MAINT_TO_SCHEDULE 2
